@@ -57,7 +57,7 @@ def one_history(rng, covord, spord, kind='bool'):
 
 def histories(rng, tier):
     out = []
-    n = 100 if tier == 'quick' else 1500
+    n = 250 if tier == 'quick' else 1500
     for _ in range(n):
         covord = rng.choice([0, 0, 1])
         spord = covord + rng.choice([0, 1, 2, 3]) if covord == 0 else covord + rng.choice([0, 1, 2])
